@@ -183,7 +183,14 @@ pub mod checks {
             let ob = if gd == wd { "multiplicity" } else { "members" };
             rep.fail(&format!("{}.{}", g, ob), &feats_of(), w(detail()));
         } else if !same_seq {
-            rep.fail(&format!("{}.order", g), &feats_of(), w(detail()));
+            // the known finding on union order is ONE specific wrong order (per selector over the whole input list): any other
+            // order is a different violation and is not covered by it
+            let mut f = feats_of();
+            if f.iter().any(|x| x == "multi-selector-segment") {
+                let kf: Vec<usize> = Ctx::known_union_order(doc).query(q).iter().map(|n| n.v as *const T as usize).collect();
+                if kf != gp.iter().map(|x| x.0 as usize).collect::<Vec<_>>() { f.retain(|x| x != "multi-selector-segment"); f.push("order-differs-from-known-union-order".to_string()); }
+            }
+            rep.fail(&format!("{}.order", g), &f, w(detail()));
         } else if gp.iter().zip(wp.iter()).any(|(a, b)| a.1 != b.1) {
             // the findings on path text concern member names that need escaping or look quoted: the input belongs to that class only
             // if such a name lies on the (expected) path of a node whose path is wrong, not merely somewhere in the document
@@ -394,7 +401,14 @@ pub mod checks {
                         gi.sort(); wi.sort();
                         let det = json!({"observed": got.iter().map(|x| &x.1).collect::<Vec<_>>(), "expected": want.iter().map(|x| &x.1).collect::<Vec<_>>()});
                         if gi != wi { rep.fail(&format!("{}.members", name), &feats, w(det)); }
-                        else if !same { rep.fail(&format!("{}.order", name), &feats, w(det)); }
+                        else if !same {
+                            let mut f = feats.clone();
+                            if f.iter().any(|x| x == "multi-selector-segment") {
+                                let kf: Vec<usize> = Ctx::known_union_order(d).query(q).iter().map(|n| n.v as *const Value as usize).collect();
+                                if kf != got.iter().map(|x| x.0).collect::<Vec<_>>() { f.retain(|x| x != "multi-selector-segment"); f.push("order-differs-from-known-union-order".to_string()); }
+                            }
+                            rep.fail(&format!("{}.order", name), &f, w(det));
+                        }
                         // the public trait methods (src/lib.rs) are position-wise projections of the same evaluation
                         use crate::JsonPath;
                         let api_ok = match (catch_unwind(AssertUnwindSafe(|| d.query(&text))), catch_unwind(AssertUnwindSafe(|| d.query_only_path(&text))), catch_unwind(AssertUnwindSafe(|| d.query_with_path(&text)))) {
@@ -662,7 +676,12 @@ pub mod checks {
                         let same = gi == wi;
                         gi.sort(); wi.sort();
                         if gi != wi { rep.fail("process_selectors.members", &feats, w(&g)); }
-                        else if !same { rep.fail("process_selectors.order", &feats, w(&g)); }
+                        else if !same {
+                            let kf: Vec<usize> = c.iter().flat_map(|s| input.iter().flat_map(|n| ctx.select(s, n)).collect::<Vec<_>>()).map(|n| n.v as *const Value as usize).collect();
+                            let mut f = feats.clone();
+                            if kf != g.iter().map(|x| x.0).collect::<Vec<_>>() { f.retain(|x| x != "multi-selector-segment"); f.push("order-differs-from-known-union-order".to_string()); }
+                            rep.fail("process_selectors.order", &f, w(&g));
+                        }
                     }
                 }
             }
